@@ -183,11 +183,36 @@ def caret_table(run, prog, sc_):
     lp = loops[0]
     w = f"{sm.rel}:{lp.lineno}"
     env0 = common.block_env(sc_.node.body, lp) or {}
-    I_ = [k for k, v in env0.items() if isinstance(v, ast.Constant) and v.value == 0 and not isinstance(v.value, bool)]
-    Q_ = [k for k, v in env0.items() if isinstance(v, ast.Constant) and v.value is False]
-    O_ = [k for k, v in env0.items() if isinstance(v, ast.List) and not v.elts]
-    need(len(I_) == 1 and len(Q_) == 1 and len(O_) == 1, "anchor: strip_carets initialises an index (0), a quote flag (False) and an output list ([])")
+    # roles from their uses, not from their initial values: the index is what the loop test bounds, the output what the function
+    # returns as bytes(...), the quote flag the variable the loop negates / resets
+    I_ = sorted({n.id for n in ast.walk(lp.test) if isinstance(n, ast.Name) and n.id not in (CMD, "len")})
+    O_ = sorted({r.value.args[0].id for r in ast.walk(sc_.node) if isinstance(r, ast.Return) and isinstance(r.value, ast.Call) and norm_src(r.value.func) == "bytes" and
+                 len(r.value.args) == 1 and isinstance(r.value.args[0], ast.Name)})
+    Q_ = sorted({t.id for n in ast.walk(lp) if isinstance(n, ast.Assign) for t in n.targets if isinstance(t, ast.Name) and
+                 ((isinstance(n.value, ast.UnaryOp) and isinstance(n.value.op, ast.Not)) or (isinstance(n.value, ast.Constant) and isinstance(n.value.value, bool)))})
+    need(len(I_) == 1 and len(Q_) == 1 and len(O_) == 1, "anchor: strip_carets has an index bounded by the loop test, a quote flag toggled in the loop and an output list returned as bytes")
     I, Q, OUT = I_[0], Q_[0], O_[0]
+    init = {k: env0.get(k) for k in (I, Q, OUT)}
+    ok_init = isinstance(init[I], ast.Constant) and init[I].value == 0 and not isinstance(init[I].value, bool) and isinstance(init[Q], ast.Constant) and init[Q].value is False and \
+        isinstance(init[OUT], ast.List) and not init[OUT].elts
+    run.ob("R6-caret-machine", "strip_carets/initial-state", ok_init, f"{sm.rel}:{sc_.lineno}", "the scan starts at the first byte, outside quotes, with nothing emitted",
+           "; ".join(f"{k} = {norm_src(v) if v is not None else '?'}" for k, v in init.items()), mech="reaching definitions at the loop head")
+    # anything that leaves before the loop must be the identity on texts the loop would not change (no caret at all)
+    for st_ in sc_.node.body:
+        if st_ is lp:
+            break
+        for r_ in ast.walk(st_):
+            if isinstance(r_, ast.Return):
+                g_ = [p_ for p_ in common.parents(r_) if isinstance(p_, ast.If)]
+                cond_ = "?"
+                if len(g_) == 1 and r_ in g_[0].body and g_[0] in sc_.node.body:
+                    env_g = {k: v for k, v in (common.block_env(sc_.node.body, g_[0]) or {}).items() if k != CMD}
+                    cond_ = norm_src(common.inline(g_[0].test, env_g))
+                no_caret = cond_ in (f"b'^' not in {CMD}", f"94 not in {CMD}", f"ord('^') not in {CMD}", f"{CMD}.find(b'^') < 0", f"{CMD}.find(b'^') == -1", f"not b'^' in {CMD}",
+                                     f"{CMD}.count(b'^') == 0", f"not {CMD}.count(b'^')")
+                run.ob("R6-caret-machine", "strip_carets/early-return", no_caret and common.is_name(r_.value, CMD), f"{sm.rel}:{r_.lineno}",
+                       "a return before the scan hands back the text unchanged, and only when it holds no caret", f"returns `{norm_src(r_.value) if r_.value else None}` when `{cond_}`",
+                       mech="guard spelling table")
     az0 = G.Atomizer(is_int=lambda e: True)
     ok_cond = G.equivalent(az0.formula(lp.test), az0.formula(common.spec_expr(f"{I} < len({CMD}) - 1")))[0]
     run.ob("R6-caret-machine", "strip_carets/loop-condition", ok_cond, w, "the main loop handles every byte but the last (which may be a trailing caret)", norm_src(lp.test), mech="truth table")
